@@ -44,12 +44,17 @@ NR == Len(Red)
 Bs == << <<"len", {1}>>, <<"first", {1}>>, <<"last", {1}>>, <<"rest", {1}>>, <<"push", {2}>>, <<"pop", {1}>>,
          <<"get", {2}>>, <<"contains", {2}>>, <<"insert", {3}>>, <<"str", {1}>>, <<"int", {1}>>, <<"float", {1}>>,
          <<"char", {1}>>, <<"byte", {1}>>, <<"tolower", {1}>>, <<"toupper", {1}>>, <<"sort", {1}>>, <<"chars", {1}>>,
-         <<"join", {1, 2}>>, <<"encode_utf8", {1}>>, <<"decode_utf8", {1}>>, <<"is_error", {1}>>, <<"round", {2}>> >>
+         <<"join", {1, 2}>>, <<"encode_utf8", {1}>>, <<"decode_utf8", {1}>>, <<"is_error", {1}>>, <<"round", {2}>>,
+         \* not pure (their results are not prescribed here: Builtins.tla leaves them unspecified), but no argument
+         \* may crash them (C08).  None of these touches a file or a stream with the arguments above.
+         <<"rand", {0, 1}>>, <<"strerror", {1}>>, <<"get_errno", {0}>>, <<"read", {1, 2}>>, <<"write", {2}>>,
+         <<"read_to_string", {1}>>, <<"read_line", {1}>>, <<"pcap_read_next", {1}>>, <<"pcap_read_all", {1}>>,
+         <<"pcap_write", {2}>>, <<"pcap_stream", {1}>>, <<"print", {1}>>, <<"eprintln", {1}>> >>
 NBs == Len(Bs)
 
 \* number of cases of builtin b at arity n
 Count(b, n) == IF n \in Bs[b][2]
-               THEN (CASE n = 1 -> NA [] n = 2 -> NA * NA [] n = 3 -> NA * NR * NR)
+               THEN (CASE n = 0 -> 1 [] n = 1 -> NA [] n = 2 -> NA * NA [] n = 3 -> NA * NR * NR)
                ELSE (CASE n = 0 -> 1 [] n = 1 -> NR [] n = 2 -> NR * NR [] n = 3 -> NR * NR * NR)
 \* cumulative layout: blocks (b, n) for b in 1..NBs, n in 0..3
 Blocks == [x \in 1..(NBs * 4) |-> Count(((x - 1) \div 4) + 1, (x - 1) % 4)]
@@ -60,7 +65,8 @@ BlockOf(n) == CHOOSE x \in 1..(NBs * 4) : Offsets[x] <= n /\ n < Offsets[x + 1]
 
 ArgIdx(b, ar, k) ==   \* index tuples of case k within block (b, ar)
   IF ar \in Bs[b][2]
-  THEN (CASE ar = 1 -> <<k + 1>>
+  THEN (CASE ar = 0 -> <<>>
+          [] ar = 1 -> <<k + 1>>
           [] ar = 2 -> <<(k \div NA) + 1, (k % NA) + 1>>
           [] ar = 3 -> <<(k \div (NR * NR)) + 1, Red[((k \div NR) % NR) + 1], Red[(k % NR) + 1]>>)
   ELSE (CASE ar = 0 -> <<>>
